@@ -220,3 +220,8 @@ def is_field(s, sep, e):
 def fresh(x):
     """smt-builtin: x was allocated during the call under verification (concretely only 'is an object' can be observed)"""
     return x is not None
+
+
+def split_off(s, sep, k):
+    """smt-builtin: start position of the k-th field of s.split(sep)"""
+    return sum(len(f) + 1 for f in s.split(sep)[:k])
